@@ -106,7 +106,9 @@ static sqf::runtime::runtime::result execute_do(sqf::runtime::runtime& runtime, 
             continue;
         }
 
-        auto instruction = frame.current();
+        // Hold the instruction itself: executing it may pop or replace the frame (and instruction set) it lives in
+        auto instruction_ptr = *frame.current();
+        auto instruction = &instruction_ptr;
         if (runtime.configuration().max_runtime != std::chrono::milliseconds::zero() &&
             runtime.configuration().max_runtime + runtime.runtime_timestamp() < std::chrono::system_clock::now())
         {
